@@ -7,6 +7,9 @@ import NflowsModel.Lemmas.RQWhole
 import NflowsModel.Lemmas.RQInverseWhole
 import Mathlib.Analysis.Calculus.FDeriv.Comp
 import Mathlib.LinearAlgebra.Determinant
+import NflowsModel.Lemmas.StructureExec
+import NflowsModel.Lemmas.CubicWhole
+import NflowsModel.Lemmas.QuadWhole
 /-!
 # C01 — the forward log-abs-det equals log |det Jacobian| of the map actually computed
 
@@ -189,5 +192,53 @@ theorem rq_program_inverse_logdet (e : Float → ℝ) (c : RQCfg) (uw uh ud : Li
     (k : ℕ) (hk : k < uw.length) (y : ℝ) (h0 : RQWhole.ys e c uh k < y) (h1 : y < RQWhole.ys e c uh (k+1)) :
     HasDerivAt (RQInverseWhole.inv e c uw uh ud) (Real.exp (RQInverseWhole.invLd e c uw uh ud y)) y :=
   RQInverseWhole.inv_hasDerivAt hv k hk y h0 h1
+
+/-! ## more executed programs -/
+
+/-- **executed coupling layer over the reals**: entry `b` of the returned log-abs-det is the sum over the channels of the
+    per-element log-derivatives of the transformed channels (0 for identity channels) — exactly the sum that
+    `sum_logdet_eq_log_abs_det` turns into `log |det J|` — provided no element of the row raised. -/
+theorem exec_coupling_ld_is_channel_sum (e : Float → ℝ) (c : ElCfg) (mask : List ℝ) (B : Nat) (x params uparams : Array ℝ)
+    (inverse : Bool) {b : Nat} (hb : b < B)
+    (hok : ∀ r ∈ NF.StructureExec.rowResults (NF.realX e) c mask 1 x params inverse none uparams b, ∃ v, r = .ok v) :
+    (couplingApply (NF.realX e) c mask B 1 x params inverse none uparams).ld[b]?
+      = some (∑ i : Fin mask.length,
+          if NF.StructureExec.isT (NF.realX e) mask i then
+            ldOf (NF.realX e) (NF.StructureExec.chanEl (NF.realX e) c mask params b i inverse
+              (NF.StructureExec.rowOf (NF.realX e) mask.length b x i))
+          else 0) :=
+  NF.StructureExec.coupling_ld_real_channels e c mask B x params uparams inverse hb hok
+
+/-- for ANY scalar semantics (also `Float`): the row log-det is the LEFT fold `((0 + l₁) + l₂) + …` of the row's
+    per-element log-dets in the implementation's iteration order (unconditional part first) -/
+theorem exec_coupling_ld_leftfold {α : Type} (o : XOps α) (c : ElCfg) (mask : List α) (B S : Nat) (x params : Array α)
+    (inverse : Bool) (uc : Option ElCfg) (uparams : Array α) {b : Nat} (hb : b < B)
+    (hok : ∀ r ∈ NF.StructureExec.rowResults o c mask S x params inverse uc uparams b, ∃ v, r = .ok v) :
+    (couplingApply o c mask B S x params inverse uc uparams).ld[b]?
+      = some (((NF.StructureExec.rowResults o c mask S x params inverse uc uparams b).map (ldOf o)).foldl o.add o.zero) :=
+  NF.StructureExec.coupling_ld_leftfold o c mask B S x params inverse uc uparams hb hok
+
+/-- **End to end, cubic forward**: at EVERY point of the open box (inside bins and at interior knots — the spline is C¹)
+    the derivative of the value the executed program `cubicSpline … false` returns is `exp` of the log-abs-det it returns.
+    `hbl` reads the `Float` constant `boxLog` (a `Float.log`, opaque to the kernel) as the real logarithm. -/
+theorem cubic_program_logdet (e : Float → ℝ) (c : CCfg) (uw uh : List ℝ) (udl udr : ℝ) (hv : CubicWhole.CubicValid e c uw uh)
+    (hbl : e (boxLog c.box) = Real.log ((e c.box.top - e c.box.bottom) / (e c.box.right - e c.box.left)))
+    (x : ℝ) (hxL : e c.box.left < x) (hxR : x < e c.box.right) :
+    HasDerivAt (CubicWhole.val e c uw uh udl udr) (Real.exp (CubicWhole.ld e c uw uh udl udr x)) x :=
+  CubicWhole.val_hasDerivAt_all hv hbl x hxL hxR
+
+/-- **End to end, quadratic forward** (bounded shape `|uh| = K+1`, and the tails shape `|uh| = K-1` with its padding
+    constant): inside every open bin the derivative of the executed value is `exp` of the executed log-abs-det. -/
+theorem quad_program_logdet (e : Float → ℝ) (c : QCfg) (uw uh : List ℝ) (hv : QuadWhole.QuadValid e c uw uh)
+    (hbl : e (boxLog c.box) = Real.log ((e c.box.top - e c.box.bottom) / (e c.box.right - e c.box.left)))
+    (k : ℕ) (hk : k < uw.length) (x : ℝ) (h0 : QuadWhole.xk e c uw k < x) (h1 : x < QuadWhole.xk e c uw (k+1)) :
+    HasDerivAt (QuadWhole.val e c uw uh) (Real.exp (QuadWhole.ld e c uw uh x)) x :=
+  QuadWhole.val_hasDerivAt_x hv hbl k hk x h0 h1
+
+theorem quad_tails_program_logdet (e : Float → ℝ) (c : QCfg) (uw uh : List ℝ) (hv : QuadWhole.QuadValidT e c uw uh)
+    (hbl : e (boxLog c.box) = Real.log ((e c.box.top - e c.box.bottom) / (e c.box.right - e c.box.left)))
+    (k : ℕ) (hk : k < uw.length) (x : ℝ) (h0 : QuadWhole.xk e c uw k < x) (h1 : x < QuadWhole.xk e c uw (k+1)) :
+    HasDerivAt (QuadWhole.val e c uw uh) (Real.exp (QuadWhole.ld e c uw uh x)) x :=
+  QuadWhole.val_hasDerivAt_x_T hv hbl k hk x h0 h1
 
 end Properties.C01
